@@ -176,3 +176,58 @@ func witness(w *world, k int) (*Schedule, error) {
 	}
 	return &Schedule{Label: label, Params: p, Events: b.evs}, nil
 }
+
+// probe builds deterministic schedules that are no violations but walk through pool rules the
+// random generator seldom reaches (k = 1..3).
+func probe(w *world, k int) (*Schedule, error) {
+	p := params4(3)
+	nw, err := newNet(w, p)
+	if err != nil {
+		return nil, err
+	}
+	defer nw.close()
+	b := &builder{nw: nw}
+	label := ""
+	x0, x1 := ref(0, 0, false), ref(1, 0, false)
+	x0e := ref(0, 0, true)
+	b.propose(0)
+	b.proc(0, 1)
+	b.propose(1)
+	b.proc(1, 1)
+	b.deliverProposal(2, 1, 0) // the second proposer's first: no immediate endorsement
+	b.deliverProposal(2, 0, 0)
+	switch k {
+	case 1: // an empty endorsement is sticky: later endorsements of the same endorser are ignored
+		label = "probe/sticky-empty"
+		b.byz(3, ByzMsg{Kind: "endorse", Claimed: 3, Proposer: 0, ForEmpty: true, Hash: x0e, Sig: own(3, x0e)})
+		b.byz(3, ByzMsg{Kind: "endorse", Claimed: 3, Proposer: 1, Hash: x1, Sig: own(3, x1)})
+		b.byz(3, ByzMsg{Kind: "endorse", Claimed: 3, Proposer: 0, Hash: x0, Sig: own(3, x0)})
+		b.deliver(2, 3, "endorse", 0, true)
+		b.deliver(2, 3, "endorse", 1, false)
+		b.deliver(2, 3, "endorse", 0, false)
+		b.proc(2, 7)
+		b.act(2)
+	case 2: // one committer, one commit: a second commit message with another hash is refused
+		label = "probe/dup-commit"
+		b.byz(3, ByzMsg{Kind: "commit", Claimed: 3, Proposer: 0, Hash: x0, Sig: own(3, x0)})
+		b.byz(3, ByzMsg{Kind: "commit", Claimed: 3, Proposer: 1, Hash: x1, Sig: own(3, x1)})
+		b.deliver(2, 3, "commit", 0, false)
+		b.deliver(2, 3, "commit", 1, false)
+		b.deliver(2, 3, "commit", 0, false)
+		b.proc(2, 7)
+		b.timer(2, 3)
+		b.act(2)
+	case 3: // one endorsement per proposer and endorser; several proposers per endorser are kept
+		label = "probe/endorse-twice"
+		b.byz(3, ByzMsg{Kind: "endorse", Claimed: 3, Proposer: 1, Hash: x1, Sig: own(3, x1)})
+		b.byz(3, ByzMsg{Kind: "endorse", Claimed: 3, Proposer: 0, Hash: x0, Sig: own(3, x0)})
+		b.deliver(2, 3, "endorse", 1, false)
+		b.deliver(2, 3, "endorse", 0, false)
+		b.deliver(2, 3, "endorse", 1, false)
+		b.proc(2, 7)
+		b.timer(2, 1)
+		b.proc(2, 3)
+		b.act(2)
+	}
+	return &Schedule{Label: label, Params: p, Events: b.evs}, nil
+}
